@@ -178,6 +178,7 @@ Lemma encoder_encode_channels e b e' :
   encoder_encode enc_block p e b = Ok e' -> si_channels (e_si e') = si_channels (e_si e).
 Proof.
   unfold encoder_encode. intros H.
+  destruct (si_max_bs (e_si e) <? block_len b)%N; [discriminate|].
   apply bind_ok in H. destruct H as (wr & _ & H).
   destruct (match si_total (e_si e) with Some t => (t <? wr)%N | None => false end); [discriminate|].
   destruct (8 <? N.of_nat (length b))%N; [discriminate|].
